@@ -47,13 +47,15 @@ func UnpadMessage(padded []byte) ([]byte, error) {
 		return nil, fmt.Errorf("invalid varint prefix in padded message: %d", varintLen)
 	}
 
-	end := uint64(varintLen) + msgLen
-	if end > uint64(len(padded)) {
+	// Compare against the remaining bytes instead of computing varintLen+msgLen first:
+	// that sum wraps around for lengths close to 2^64 and would pass the check.
+	if msgLen > uint64(len(padded)-varintLen) {
 		return nil, fmt.Errorf(
 			"varint length %d exceeds available data (have %d bytes after prefix)",
 			msgLen, len(padded)-varintLen,
 		)
 	}
 
+	end := uint64(varintLen) + msgLen
 	return padded[varintLen:end], nil
 }
